@@ -190,14 +190,17 @@ def run(prop, tier):
         v.bounded = _bounded_note(units) + [dict(part="history", bound="3 concrete history instructions executed on the same Emulator object at the same address; TEMP0-13 fully symbolic and different in the two runs",
                                                  note="TEMP contents are covered for all values; other hidden state only through the listed histories")]
         from props import rust_standin as RS
-        vec = dict(hist=dict(seed=common.seed() + 1, patterns=6 if tier == "quick" else 40))
-        res = RS.run(vec, ["hist"])
+        vec = dict(hist=dict(seed=common.seed() + 1, patterns=6 if tier == "quick" else 40),
+                   split=dict(totals=[6, 12, 40] if tier == "quick" else [4, 6, 9, 12, 25, 40, 100, 333]))
+        res = RS.run(vec, ["hist", "split"])
         keep = (v.obligations, v.discharged)
-        v.absorb(RS.reports(res, vec, ["hist"]), known, expect_obligations=False)
+        v.absorb(RS.reports(res, vec, ["hist", "split"]), known, expect_obligations=False)
         v.obligations, v.discharged = keep
         v.bounded.append(RS.summarize(res, "hist", f"one CoreRuntime::step on the compiled crate for every opcode byte x {vec['hist']['patterns']} operand patterns (3 fixed, the rest seeded random), "
                                                    "fresh runtime vs. runtime that executed a history program (CALL/RET, MVL, open CALLF) and carries junk in TEMP0-13, call depth/sub level, call stack and call-page stack; "
                                                    "same registers/flags/memory in => same eight registers, power state, step result and written bytes out"))
+        v.bounded.append(RS.summarize(res, "split", f"four programs (plain code, a program raising a status bit itself, two pending sources, timers with a handler) run for {vec['split']['totals']} instructions "
+                                                    "on the compiled crate under five splits of the step() calls vs. one instruction per call: same registers, cycle count and written bytes"))
         v.assumptions.append("Rust half of C07 (LlamaState call bookkeeping, scratch registers, history) NOT proved: bounded stand-in on the compiled crate only; PERF statics / thread-locals not decided")
         v.samples.append(dict(unit=units[0], obligations=["same-outcome", "hist:reg:*", "hist:mem", "hist:halted", "module-state-unchanged"]))
         rule = ("2-safety: the same symbolic registers/flags/memory executed (a) on a fresh Emulator with TEMP registers = symbols a_i and "
